@@ -13,7 +13,7 @@ from .. import core, session as S, fills, progs
 from ..core import Violation
 
 ID = 'C09'
-LEVS_Q = [1, 2, 5, 25, 125]
+LEVS_Q = [1, 2, 3, 5, 25, 125]
 LEVS_T = [1, 2, 3, 5, 10, 20, 25, 50, 100, 125]
 
 
@@ -36,6 +36,11 @@ def _formulas(args):
                 if math.isnan(liq) or math.isnan(bk) or not ok_side or (L > 1 and not between):
                     out['viols'].append(Violation('liquidation-price-formula', {'side': side, 'leverage_gt_1': L > 1}, case,
                                                   'leverage %d %s entry %r: liquidation %r, bankruptcy %r' % (L, side, entry, liq, bk)).to_json())
+                # a fill at the bankruptcy price must cost exactly the initial margin, entry value / leverage
+                want = entry * (1 - 1.0 / L) if side == 'long' else entry * (1 + 1.0 / L)
+                if not math.isnan(bk) and abs(bk - want) > 1e-12 * entry:
+                    out['viols'].append(Violation('bankruptcy-price-vs-initial-margin', {'side': side}, case,
+                                                  'leverage %d %s entry %r: bankruptcy price %r, entry -/+ entry/leverage is %r' % (L, side, entry, bk, want)).to_json())
         p.qty = 0
     # cross and spot: no liquidation price
     for kind, mode in (('futures', 'cross'), ('spot', None)):
